@@ -101,11 +101,16 @@ Definition obj_tick (cfg : config) (tl : timeline) (tr : track) : timeline * lis
 (** * Track.perform_event: the branches that are NOT translated   (trusted)
    The two guards (`if not event.active`, `if self.is_muted`), the dispatch on event.type and the control / program-change
    branches are read from the source (Generated/TablesTrack.v src_track_perform_event).  The action branch (the try/except
-   around the callback: the callback itself runs in obj_tick) and the note branch (the voice loop, Model.v perform_voices)
-   are the model's, taken over as they are. *)
+   around the callback: the callback itself runs in obj_tick) is the model's, taken over as it is; of the note branch the
+   body of the voice loop is read from the source and the loop around it is [perform_note_with] below. *)
 Definition perform_action (self : track) (calls : list call) (n : nat) (cb : nat) : track * list call * nat * performed :=
   (self, calls ++ [CCallback cb], n, PfCallback cb).
-Definition perform_note (fail : option nat) (nowT : Z) (self : track) (calls : list call) (n : nat) (vs : list voice)
-  : track * list call * nat * performed :=
-  let '(offs, c, n', ok) := perform_voices fail nowT (t_cur self) vs n (t_offs self) [] in
-  (set_offs self offs, calls ++ c, n', if ok then PfOk else PfRaise).
+
+(* the note branch: `for index, note in enumerate(notes): amp = ...; channel = ...; gate = ...; <body>` runs <body> - which IS
+   translated (Generated/TablesTrack.v src_track_perform_voice) - once per voice, the voice being (note, amp, channel,
+   duration * gate) as resolved from the event (v_note, v_amp, v_chan, v_glen: Model.v; `gate > 0` is read as
+   `duration * gate > 0`, durations being positive); a device call that raises ends the loop (state component ok = false) *)
+Definition perform_note_with (step : track * list call * nat * bool -> voice -> track * list call * nat * bool)
+  (self : track) (calls : list call) (n : nat) (vs : list voice) : track * list call * nat * performed :=
+  let '(self, calls, n, ok) := fold_left step vs (self, calls, n, true) in
+  (self, calls, n, if ok then PfOk else PfRaise).
